@@ -1,0 +1,107 @@
+//go:build verif
+// +build verif
+
+// Exports for the external verification harness (/verif). Compiled only with -tags verif.
+// Add-only and read-only: the functions below call the getters of this package and return
+// what they returned; nothing here is used by goleveldb itself.
+
+package opt
+
+import "github.com/syndtr/goleveldb/leveldb/comparer"
+
+// VerifLevels is the number of levels (0..VerifLevels-1) for which VerifGetters evaluates
+// the level-indexed getters.
+const VerifLevels = 13
+
+// VerifGetterValues holds the result of every getter of *Options for one Options value.
+type VerifGetterValues struct {
+	// Scalars, in the order of VerifScalarNames.
+	Scalars []int64
+	// Per level (index = level): GetCompactionExpandLimit, GetCompactionGPOverlaps,
+	// GetCompactionSourceLimit, GetCompactionTableSize, GetCompactionTotalSize.
+	ExpandLimit []int64
+	GPOverlaps  []int64
+	SourceLimit []int64
+	TableSize   []int64
+	TotalSize   []int64
+}
+
+// VerifScalarNames names the entries of VerifGetterValues.Scalars.
+var VerifScalarNames = []string{
+	"AltFiltersLen", "BlockCacher", "BlockCacheCapacity", "BlockCacheEvictRemoved",
+	"BlockRestartInterval", "BlockSize", "CompactionL0Trigger", "Comparer", "Compression",
+	"DisableBufferPool", "DisableBlockCache", "DisableCompactionBackoff",
+	"DisableLargeBatchTransaction", "DisableSeeksCompaction", "ErrorIfExist", "ErrorIfMissing",
+	"Filter", "IteratorSamplingRate", "NoSync", "NoWriteMerge", "OpenFilesCacher",
+	"OpenFilesCacheCapacity", "ReadOnly", "StrictMask", "WriteBuffer", "WriteL0PauseTrigger",
+	"WriteL0SlowdownTrigger", "FilterBaseLg", "MaxManifestFileSize",
+	// ReadOptions / WriteOptions / the package-level GetStrict
+	"RoDontFillCache", "RoStrictMask", "WoNoWriteMerge", "WoSync", "CombinedStrictMask",
+}
+
+func verifB(b bool) int64 {
+	if b {
+		return 1
+	}
+	return 0
+}
+
+// verifCacherKind: 0 = the package's LRUCacher value, 1 = NoCacher, 2 = anything else
+// (nil cannot be returned by the getters).
+func verifCacherKind(c Cacher) int64 {
+	switch c {
+	case LRUCacher:
+		return 0
+	case NoCacher:
+		return 1
+	}
+	return 2
+}
+
+// VerifStrictFlags lists the single-bit strict flags in declaration order.
+var VerifStrictFlags = []Strict{StrictManifest, StrictJournalChecksum, StrictJournal, StrictBlockChecksum,
+	StrictCompaction, StrictReader, StrictRecovery, StrictOverride}
+
+// VerifGetters calls every getter of o (o may be nil), ro and wo (may be nil) and returns the results.
+// Interface-valued results are reduced to what the callers test: the comparer and the filter to
+// "is the package default / is nil", the cachers to their kind.
+func VerifGetters(o *Options, ro *ReadOptions, wo *WriteOptions) VerifGetterValues {
+	var v VerifGetterValues
+	var mask, romask, cmask int64
+	for i, f := range VerifStrictFlags {
+		if o.GetStrict(f) {
+			mask |= 1 << uint(i)
+		}
+		if ro.GetStrict(f) {
+			romask |= 1 << uint(i)
+		}
+		if GetStrict(o, ro, f) {
+			cmask |= 1 << uint(i)
+		}
+	}
+	var cmpDefault int64
+	if o.GetComparer() == comparer.DefaultComparer {
+		cmpDefault = 1
+	}
+	v.Scalars = []int64{
+		int64(len(o.GetAltFilters())), verifCacherKind(o.GetBlockCacher()), int64(o.GetBlockCacheCapacity()),
+		verifB(o.GetBlockCacheEvictRemoved()), int64(o.GetBlockRestartInterval()), int64(o.GetBlockSize()),
+		int64(o.GetCompactionL0Trigger()), cmpDefault, int64(o.GetCompression()),
+		verifB(o.GetDisableBufferPool()), verifB(o.GetDisableBlockCache()), verifB(o.GetDisableCompactionBackoff()),
+		verifB(o.GetDisableLargeBatchTransaction()), verifB(o.GetDisableSeeksCompaction()), verifB(o.GetErrorIfExist()),
+		verifB(o.GetErrorIfMissing()), verifB(o.GetFilter() != nil), int64(o.GetIteratorSamplingRate()),
+		verifB(o.GetNoSync()), verifB(o.GetNoWriteMerge()), verifCacherKind(o.GetOpenFilesCacher()),
+		int64(o.GetOpenFilesCacheCapacity()), verifB(o.GetReadOnly()), mask, int64(o.GetWriteBuffer()),
+		int64(o.GetWriteL0PauseTrigger()), int64(o.GetWriteL0SlowdownTrigger()), int64(o.GetFilterBaseLg()),
+		o.GetMaxManifestFileSize(),
+		verifB(ro.GetDontFillCache()), romask, verifB(wo.GetNoWriteMerge()), verifB(wo.GetSync()), cmask,
+	}
+	for level := 0; level < VerifLevels; level++ {
+		v.ExpandLimit = append(v.ExpandLimit, int64(o.GetCompactionExpandLimit(level)))
+		v.GPOverlaps = append(v.GPOverlaps, int64(o.GetCompactionGPOverlaps(level)))
+		v.SourceLimit = append(v.SourceLimit, int64(o.GetCompactionSourceLimit(level)))
+		v.TableSize = append(v.TableSize, int64(o.GetCompactionTableSize(level)))
+		v.TotalSize = append(v.TotalSize, o.GetCompactionTotalSize(level))
+	}
+	return v
+}
